@@ -49,24 +49,37 @@ def ctxKey : String := "puppet.context"
 /-- harness: variable that carries a context's printable identity -/
 def tagKey : String := "tag"
 
-/-- programs (one goroutine's code) -/
-inductive Prog where
-  | skip
+/-- leaf operations (each is preceded by a scheduling point) -/
+inductive Leaf where
   | obs                               -- px.CurrentContext(): identity (tag), Stack()
   | set (k : String) (x : Nat)        -- c.Set(k, x)
   | get (k : String)                  -- c.Get(k)
   | push (l : Nat)                    -- c.StackPush(loc l)
   | deftype (n : String)              -- c.DefiningLoader().SetEntry(type n, value)
   | load (n : String)                 -- px.Load(c, type n)
+  | panic
+  deriving Repr, DecidableEq, Inhabited
+
+/-- programs (one goroutine's code) -/
+inductive Prog where
+  | skip
+  | leaf (l : Leaf)
   | doctx (id : Nat) (p : Prog)       -- harness: x := c.Fork(); x.Set(tag,id);  px.DoWithContext(x, p)
   | dodo (id : Nat) (p : Prog)        -- pcore.Do(func(c){ harness: c.Set(tag,id); p })
   | doloader (p : Prog)               -- harness: l := NewParentedLoader(c.Loader());  c.DoWithLoader(l, p)
   | fork (p : Prog)                   -- px.Fork(c, p)
   | go (p : Prog)                     -- px.Go(p)
-  | panic
   | seq (p q : Prog)
   | recover (p : Prog)                -- func(){ defer func(){ recover() }(); p }()
   deriving Repr, DecidableEq, Inhabited
+
+@[match_pattern] abbrev Prog.obs : Prog := .leaf .obs
+@[match_pattern] abbrev Prog.set (k : String) (x : Nat) : Prog := .leaf (.set k x)
+@[match_pattern] abbrev Prog.get (k : String) : Prog := .leaf (.get k)
+@[match_pattern] abbrev Prog.push (l : Nat) : Prog := .leaf (.push l)
+@[match_pattern] abbrev Prog.deftype (n : String) : Prog := .leaf (.deftype n)
+@[match_pattern] abbrev Prog.load (n : String) : Prog := .leaf (.load n)
+@[match_pattern] abbrev Prog.panic : Prog := .leaf .panic
 
 def Prog.size : Prog → Nat
   | .doctx _ p => p.size + 1 | .dodo _ p => p.size + 1 | .doloader p => p.size + 1
@@ -128,6 +141,8 @@ structure World where
   sched : List Nat := []
   log : List (Gid × Ev) := []
   oof : Bool := false
+  /-- ghost (never printed, never read by the semantics): which context was made current for which goroutine -/
+  estab : List (Gid × CtxId) := []
 
 instance : Inhabited World := ⟨{}⟩
 
@@ -175,9 +190,7 @@ def newLoader (w : World) : LoaderId × World :=
 
 /-- `pxContext.Fork`: stack copied, vars copied, loader wrapped in a new parented loader -/
 def forkCtx (c : CtxId) (w : World) : CtxId × World :=
-  let x := w.ctxs c
-  let (l, w1) := newLoader w
-  newCtx { loader := l :: x.loader, stack := x.stack, vars := x.vars } w1
+  newCtx { loader := (newLoader w).1 :: (w.ctxs c).loader, stack := (w.ctxs c).stack, vars := (w.ctxs c).vars } (newLoader w).2
 
 def setVar (c : CtxId) (k : String) (x : Nat) (w : World) : World :=
   ctxUpd c (fun y => { y with vars := aset k x y.vars }) w
@@ -200,6 +213,9 @@ def setEntry (l : LoaderId) (n : String) (b : Bool) (w : World) : World :=
 
 def emit (g : Gid) (e : Ev) (w : World) : World := { w with log := w.log ++ [(g, e)] }
 
+/-- ghost: `c` has just been made the current context of goroutine `g` by DoWithContext / Fork -/
+def note (g : Gid) (c : CtxId) (w : World) : World := { w with estab := w.estab ++ [(g, c)] }
+
 /-! ## px.DoWithContext -/
 
 /-- ```go
@@ -213,7 +229,7 @@ def doWithContext (v : Ver) (g : Gid) (cx : CtxId) (body : World → Outcome × 
     match tlSet g ctxKey cx w with
     | none => (.panicked, w)
     | some w1 =>
-      let r := body w1
+      let r := body (note g cx w1)
       match tlSet g ctxKey save r.2 with
       | some w3 => (r.1, w3)
       | none => (if r.1 = .fuel then .fuel else .panicked, r.2)
@@ -222,26 +238,27 @@ def doWithContext (v : Ver) (g : Gid) (cx : CtxId) (body : World → Outcome × 
     match tlSet g ctxKey cx w1 with
     | none => (.panicked, w1)
     | some w2 =>
-      let r := body w2
+      let r := body (note g cx w2)
       (r.1, if v = .now then tlCleanup g r.2 else r.2)
 
 /-- `pcore.Do` on goroutine `g`.
     now:    `doWithRoot(func(root){ DoWithParent(root, actor) })`, `DoWithParent` = `DoWithContext(root.Fork(), actor)`
     before: `DoWithParent(RootContext(), actor)` where `RootContext` does `Init(); Set(key, root)` on the caller -/
 def doDo (v : Ver) (g : Gid) (id : Nat) (body : CtxId → World → Outcome × World) (w : World) : Outcome × World :=
-  let (root, w1) := newCtx { loader := [0] } w
+  let root := (newCtx { loader := [0] } w).1
+  let w1 := (newCtx { loader := [0] } w).2
   match v with
   | .now =>
     doWithContext v g root (fun w2 =>
-      let (cx, w3) := forkCtx root w2
-      doWithContext v g cx (fun w4 => body cx (setVar cx tagKey id w4)) w3) w1
+      doWithContext v g (forkCtx root w2).1
+        (fun w4 => body (forkCtx root w2).1 (setVar (forkCtx root w2).1 tagKey id w4)) (forkCtx root w2).2) w1
   | .before =>
     let w2 := tlInit g w1
     match tlSet g ctxKey root w2 with
     | none => (.panicked, w2)
     | some w3 =>
-      let (cx, w4) := forkCtx root w3
-      doWithContext v g cx (fun w5 => body cx (setVar cx tagKey id w5)) w4
+      let fc := forkCtx root (note g root w3)
+      doWithContext v g fc.1 (fun w5 => body fc.1 (setVar fc.1 tagKey id w5)) fc.2
 
 /-! ## goroutines -/
 
@@ -249,11 +266,11 @@ def doDo (v : Ver) (g : Gid) (id : Nat) (body : CtxId → World → Outcome × W
     harness: the doer first tags its context with `1000 + gid`, recovers a panic of the body and records the outcome -/
 def runTask (v : Ver) (ex : Prog → Gid → CtxId → World → Outcome × World) (t : Task) (w : World) : World :=
   let w1 := tlInit t.gid w
-  let (cf, w2) := if v = .before then forkCtx t.ctx w1 else (t.ctx, w1)
-  match tlSet t.gid ctxKey cf w2 with
-  | none => w2
+  let fc := if v = .before then forkCtx t.ctx w1 else (t.ctx, w1)
+  match tlSet t.gid ctxKey fc.1 fc.2 with
+  | none => fc.2
   | some w3 =>
-    let r := ex t.prog t.gid cf (setVar cf tagKey (1000 + t.gid) w3)
+    let r := ex t.prog t.gid fc.1 (setVar fc.1 tagKey (1000 + t.gid) (note t.gid fc.1 w3))
     let w5 := emit t.gid (.done r.1) r.2
     tlCleanup t.gid { w5 with oof := w5.oof || r.1 = .fuel }
 
@@ -271,8 +288,31 @@ def yield (v : Ver) (ex : Prog → Gid → CtxId → World → Outcome × World)
 
 /-- `px.Fork(c, doer)`; now: `cf := c.Fork()` happens here, in the caller -/
 def spawn (v : Ver) (c : CtxId) (p : Prog) (w : World) : World :=
-  let (cf, w1) := if v = .now then forkCtx c w else (c, w)
-  { w1 with nextGid := w1.nextGid + 1, pending := w1.pending ++ [{ gid := w1.nextGid, ctx := cf, prog := p }] }
+  let fc := if v = .now then forkCtx c w else (c, w)
+  { fc.2 with nextGid := fc.2.nextGid + 1, pending := fc.2.pending ++ [{ gid := fc.2.nextGid, ctx := fc.1, prog := p }] }
+
+/-- one leaf operation of goroutine `g` on the context `c` its body was handed -/
+def leafStep (g : Gid) (c : CtxId) (l : Leaf) (w : World) : Outcome × World :=
+  match l with
+  | .obs =>
+    match tlGet g ctxKey w with
+    | none => (.normal, emit g (.obs none c none []) w)
+    | some cur => (.normal, emit g (.obs (some cur) c (aget tagKey (w.ctxs cur).vars) (w.ctxs cur).stack) w)
+  | .set k x => (.normal, setVar c k x w)
+  | .get k => (.normal, emit g (.get k (aget k (w.ctxs c).vars)) w)
+  | .push l => (.normal, ctxUpd c (fun y => { y with stack := y.stack ++ [l] }) w)
+  | .deftype n =>
+    match (w.ctxs c).loader with
+    | [] => (.panicked, w)                       -- `No defining loader found in context`
+    | l :: _ => (.normal, setEntry l n true w)
+  | .load n =>
+    match loadEntry w.defs (w.ctxs c).loader n with
+    | none =>
+      match (w.ctxs c).loader with
+      | [] => (.normal, emit g (.load n false) w)
+      | l :: _ => (.normal, emit g (.load n false) (setEntry l n false w))
+    | some b => (.normal, emit g (.load n b) w)
+  | .panic => (.panicked, w)
 
 /-- big-step execution of `p` by goroutine `g` whose body was handed context `c` -/
 def exec (v : Ver) : Nat → Prog → Gid → CtxId → World → Outcome × World
@@ -285,50 +325,21 @@ def exec (v : Ver) : Nat → Prog → Gid → CtxId → World → Outcome × Wor
       match r.1 with
       | .normal => exec v f q g c r.2
       | o => (o, r.2)
-    | .obs =>
-      let w := yield v (exec v f) w
-      match tlGet g ctxKey w with
-      | none => (.normal, emit g (.obs none c none []) w)
-      | some cur => (.normal, emit g (.obs (some cur) c (aget tagKey (w.ctxs cur).vars) (w.ctxs cur).stack) w)
-    | .set k x =>
-      let w := yield v (exec v f) w
-      (.normal, setVar c k x w)
-    | .get k =>
-      let w := yield v (exec v f) w
-      (.normal, emit g (.get k (aget k (w.ctxs c).vars)) w)
-    | .push l =>
-      let w := yield v (exec v f) w
-      (.normal, ctxUpd c (fun y => { y with stack := y.stack ++ [l] }) w)
-    | .deftype n =>
-      let w := yield v (exec v f) w
-      match (w.ctxs c).loader with
-      | [] => (.panicked, w)                       -- `No defining loader found in context`
-      | l :: _ => (.normal, setEntry l n true w)
-    | .load n =>
-      let w := yield v (exec v f) w
-      match loadEntry w.defs (w.ctxs c).loader n with
-      | none =>
-        match (w.ctxs c).loader with
-        | [] => (.normal, emit g (.load n false) w)
-        | l :: _ => (.normal, emit g (.load n false) (setEntry l n false w))
-      | some b => (.normal, emit g (.load n b) w)
-    | .panic =>
-      let w := yield v (exec v f) w
-      (.panicked, w)
+    | .leaf l => leafStep g c l (yield v (exec v f) w)
     | .recover p =>
       let r := exec v f p g c w
       match r.1 with
       | .panicked => (.normal, emit g .recovered r.2)
       | o => (o, r.2)
     | .doctx id p =>
-      let (cx, w1) := forkCtx c w
-      doWithContext v g cx (fun w2 => exec v f p g cx w2) (setVar cx tagKey id w1)
+      let fc := forkCtx c w
+      doWithContext v g fc.1 (fun w2 => exec v f p g fc.1 w2) (setVar fc.1 tagKey id fc.2)
     | .dodo id p =>
       doDo v g id (fun cx w1 => exec v f p g cx w1) w
     | .doloader p =>
       let save := (w.ctxs c).loader
-      let (l, w1) := newLoader w
-      let r := exec v f p g c (ctxUpd c (fun y => { y with loader := l :: save }) w1)
+      let nl := newLoader w
+      let r := exec v f p g c (ctxUpd c (fun y => { y with loader := nl.1 :: save }) nl.2)
       (r.1, ctxUpd c (fun y => { y with loader := save }) r.2)
     | .fork p => (.normal, spawn v c p w)
     | .go p =>
